@@ -45,6 +45,8 @@ func init() {
 			// another step signed with the same key, for splicing
 			og := newDocgen(rng, false)
 			odoc := og.signableStep()
+			// (the generated step may spell its command under `commands`, which would win over `command`)
+			odoc.del("commands")
 			odoc.set("command", dStr("other command "+fmt.Sprint(i)))
 			ocs, otext, oerr := stepFromDoc(odoc)
 			var osg *pipeline.Signature
